@@ -252,4 +252,4 @@ def cfg_sq(tier, seed):
 
 
 HARNESSES = [H("conditional_gr", h_cgr, cfg_gr, timeout_ms=30000, validate_timeout_ms=3000),
-             H("conditional_sq", h_csq, cfg_sq, timeout_ms=30000)]
+             H("conditional_sq", h_csq, cfg_sq, timeout_ms=30000, validate_atol=1e-7)]
